@@ -216,9 +216,7 @@ func c04OneShot(p *Program, r *Report) {
 		return
 	}
 	fn := f.CloseFn
-	g := p.ig(fn)
-	tr := int64(1)
-	_ = tr
+	g := p.igx(fn)
 	cas := map[int]bool{}
 	succ := map[edge]bool{}
 	for i, in := range g.Nodes {
@@ -231,7 +229,7 @@ func c04OneShot(p *Program, r *Report) {
 		if ok1 && ok2 && !o && n {
 			cas[i] = true
 			cv := in.(ssa.Value)
-			for _, ifi := range ifsOf(fn) {
+			for _, ifi := range g.ifs() {
 				for _, outcome := range []bool{true, false} {
 					fc, ok := condFact(ifi.Cond, outcome)
 					if ok && fc.Bool && fc.X == cv && fc.Op == token.NEQ {
@@ -305,6 +303,17 @@ func c04OneShot(p *Program, r *Report) {
 			return false
 		})},
 	}
+	for _, h := range g.Fns[1:] {
+		if !g.owns(p, h) {
+			for _, e := range effs {
+				for n := range e.n {
+					if g.Nodes[n].Parent() == h {
+						r.Violate("completion effect: "+e.name+" in shared helper "+fnName(h), g.Nodes[n].Pos(), "the helper performing this completion effect is also called from outside the completing function, i.e. not under the completion CAS")
+					}
+				}
+			}
+		}
+	}
 	for _, e := range effs {
 		if len(e.n) == 0 {
 			r.Violate("completion effect: "+e.name, fn.Pos(), "effect not found in the completing function")
@@ -350,7 +359,7 @@ func c04OneShot(p *Program, r *Report) {
 			continue
 		}
 		seen[k] = true
-		r.Check(fo == fn, fmt.Sprintf("writer of %s: %s", a.Field.Name(), fnName(fo)), a.In.Pos(), "the result fields are written only by the completing function")
+		r.Check(g.owns(p, fo), fmt.Sprintf("writer of %s: %s", a.Field.Name(), fnName(fo)), a.In.Pos(), "the result fields are written only by the completing function (or a helper called from it alone)")
 	}
 	// the CAS is the only write of closed
 	for _, a := range p.fieldAccesses(map[*types.Var]bool{f.Closed: true}) {
@@ -368,7 +377,7 @@ func c04Publication(p *Program, r *Report) {
 	if f == nil {
 		return
 	}
-	g := p.ig(f.CloseFn)
+	g := p.igx(f.CloseFn)
 	closeDone := nodesWhere(g, func(in ssa.Instruction) bool {
 		c, ok := in.(*ssa.Call)
 		if !ok {
@@ -403,7 +412,7 @@ func c04Publication(p *Program, r *Report) {
 		if o := fo.Origin(); o != nil {
 			fo = o
 		}
-		if fo == f.CloseFn {
+		if g.owns(p, fo) {
 			continue // the completing function reads its own writes; instantiations duplicate the generic body (deduplicated by position below)
 		}
 		k := p.pos(a.In.Pos())
